@@ -15,6 +15,9 @@ for kind in ('seeded', 'refactors'):
         p = os.path.join(here, kind, d, 'patch.diff')
         if not os.path.exists(p):
             continue
+        mp0 = os.path.join(here, kind, d, 'meta.json')
+        if json.load(open(mp0)).get('pinned_to_repository_commit'):
+            continue            # kept against the commit it was cut for (see its meta.json)
         note = 'applies'
         if git('apply', '--check', p).returncode:
             r = git('apply', '--3way', p)
